@@ -1,6 +1,6 @@
 (* C03 — lemmas: the guards of the repaired code suffice (no dangerous operation is reached outside its domain),
    for every input and every verdict of the library steps. *)
-From Coq Require Import List NArith ZArith String Ascii Bool Lia.
+From Coq Require Import List NArith ZArith String Ascii Bool Lia FinFun.
 Import ListNotations.
 From VF Require Import common.Json common.Res C03.Model.
 Local Open Scope N_scope.
@@ -260,6 +260,40 @@ Proof.
   lia.
 Qed.
 
+Lemma vc2_walk_safe : forall is revealed nmsgs ind,
+  (ind + List.length (filter (fun i => zmem i revealed) is) <= nmsgs)%nat -> safe (vc2_walk is revealed nmsgs ind).
+Proof.
+  induction is as [|a r IH]; intros revealed nmsgs ind H; cbn [vc2_walk]; [exact I|].
+  cbn [filter] in H. destruct (zmem a revealed) eqn:M; cbn [List.length] in H.
+  - destruct (ind <? nmsgs)%nat eqn:L.
+    + apply IH. lia.
+    + apply Nat.ltb_ge in L. lia.
+  - apply IH. lia.
+Qed.
+
+Lemma zrange_nodup : forall n, NoDup (zrange n).
+Proof.
+  intros n. unfold zrange. apply Injective_map_NoDup; [|apply seq_NoDup].
+  intros x y H. apply Nat2Z.inj. exact H.
+Qed.
+
+(* the walk meets every revealed index at most once: it cannot advance further than the number of revealed indexes *)
+Lemma hits_le : forall n revealed,
+  (List.length (filter (fun i => zmem i revealed) (zrange n)) <= List.length revealed)%nat.
+Proof.
+  intros n revealed. apply NoDup_incl_length.
+  - apply NoDup_filter. apply zrange_nodup.
+  - intros x Hx. apply filter_In in Hx. destruct Hx as [_ Hm]. unfold zmem in Hm.
+    apply existsb_exists in Hm. destruct Hm as [y [Hy E]]. apply Z.eqb_eq in E. subst. exact Hy.
+Qed.
+
+Lemma verify_vc2_safe : forall count revealed nmsgs, (Z.of_nat (List.length revealed) <= nmsgs)%Z ->
+  safe (verify_vc2 count revealed nmsgs).
+Proof.
+  intros count revealed nmsgs H. unfold verify_vc2. apply vc2_walk_safe.
+  pose proof (hits_le (Z.to_nat count) revealed). lia.
+Qed.
+
 Lemma verify_proof_safe : forall pts key_ok nmsgs b, safe (verify_proof Fixed pts key_ok nmsgs b).
 Proof.
   intros. unfold verify_proof. apply parse_pok_payload_safe. intros count bv Hc Hl. cbv zeta.
@@ -267,7 +301,9 @@ Proof.
   pose proof (pok_len_ge _ Hc).
   apply sliced_safe; try lia. intros rest _.
   apply safe_andthen'; [apply parse_signature_proof_safe|].
-  apply safe_andthen'; [apply safe_lib|]. apply safe_andthen'; [apply safe_check|].
+  apply safe_andthen'; [apply safe_lib|]. apply safe_andthen; [apply safe_check|].
+  intros H57. apply check_pass in H57. apply Z.ltb_ge in H57.
+  apply safe_andthen'; [|apply verify_vc2_safe; exact H57].
   unfold make_cap.
   assert (Z.of_nat (List.length (revealed_of bv)) <= count - 0)%Z.
   { apply inc_length; try lia.
